@@ -1,5 +1,6 @@
 import UtilModel.RefCount.ConsProps
 import UtilModel.RefCount.ConsRelA
+import UtilModel.RefCount.ConsRelB
 open UtilModel UtilModel.RefCount UtilModel.RefCount.Cons
 #print axioms UtilModel.accepts_sound
 #print axioms UtilModel.accepted_satisfies
@@ -17,3 +18,6 @@ open UtilModel UtilModel.RefCount UtilModel.RefCount.Cons
 #print axioms RefCount.rel_not_while_held_inv
 #print axioms RefCount.Cons.r0_step
 #print axioms RefCount.Cons.c10_value_obs
+#print axioms RefCount.Cons.rb_step
+#print axioms RefCount.Cons.c10_result_obs
+#print axioms RefCount.Cons.c10_cancel_obs
